@@ -33,7 +33,7 @@ BANDS = {
     'S': [(-50, 250, -0.02, 0.02), (250, 1064, -0.01, 0.01), (1064, 1664.5, -0.0002, 0.0002), (1664.5, 1768.1, -0.002, 0.002)],
     'T': [(-200, 0, -0.02, 0.04), (0, 400, -0.03, 0.03)],
 }
-BLOCKS = {'quick': 8, 'thorough': 160}
+BLOCKS = {'quick': 8, 'thorough': 4000}
 BLOCK = 12500
 
 
